@@ -91,7 +91,7 @@ Print Assumptions C01_height_bounds_dimension.
 
 (* ---- history refinement: for ALL histories made of insert_simplex, insert_simplex_and_subfaces,
         insert_batch_vertices, remove_maximal_simplex, prune_above_filtration, prune_above_dimension, clear and
-        calls of dimension(), that meet the documented preconditions and keep the complex closed and monotone
+        calls of dimension() and num_simplices_by_dimension() (both may rewrite the cached dimension), that meet the documented preconditions and keep the complex closed and monotone
         ([ok_history]): the tree is well formed, holds exactly the finite map of the specification run, and the
         cached dimension_ is an upper bound of the dimension of every simplex of the complex.  Holds for the
         repaired (fx = true) and the original (fx = false) dimension bookkeeping alike. ---- *)
@@ -239,13 +239,25 @@ Theorem C01_num_simplices : forall l, wf l -> size_t (Node l) = Z.of_nat (length
 Proof. exact num_simplices_is_cardinal. Qed.
 Print Assumptions C01_num_simplices.
 
+(* ---- num_simplices_by_dimension with a pending recomputation: the vector it returns after dropping trailing zeros
+        has length (dimension of the complex + 1), which is what it writes back into dimension_ ---- *)
+Theorem C01_counts_writeback : forall st res,
+  wf (tree st) -> tree st <> [] ->
+  counts_t (Node (tree st)) 0 (repeat 0 (Z.to_nat (Z.min (dim_ub st + 1) 41))) = Some res ->
+  let res' := rev (strip_zeros (rev res)) in
+  (forall t, t <> [] -> find_val t (tree st) <> None -> sdim t <= Z.of_nat (length res') - 1) /\
+  (exists t, t <> [] /\ find_val t (tree st) <> None /\ sdim t = Z.of_nat (length res') - 1).
+Proof. exact count_by_dim_dirty. Qed.
+Print Assumptions C01_counts_writeback.
+
 (* ---- stated, not proved in Coq (compared per input by the correspondence run instead) ---- *)
-(* histories that also contain insert_graph, expansion and num_simplices_by_dimension *)
+(* histories that also contain insert_graph and expansion *)
 Definition C01_history_refines_full : Prop :=
   forall ops, ok_history ops = true ->
     (forall t, t <> [] -> find_val t (tree (run true ops)) = lookup (spec_run ops) t) /\
     snd (dimension (run true ops)) = cdim (spec_run ops).
-(* num_simplices_by_dimension = the counts per dimension, and its effect on the cached dimension inside histories *)
+(* num_simplices_by_dimension returns the exact counts per dimension (proved: which entries are positive, and the
+   dimension it writes back - C01_counts_writeback; not proved: the numbers themselves) *)
 Definition C01_counts_full : Prop :=
   forall st, wf (tree st) -> ub_valid st ->
     exists r, snd (count_by_dim st) = Some r /\
